@@ -189,7 +189,7 @@ def cmd_run_wt(mid, tier="quick"):
     finally:
         sh(["git", "-C", "/repo", "worktree", "remove", "--force", wt])
     lines = [ln for ln in out.splitlines() if ln.startswith("VIOLATION") or ln.startswith("  ")]
-    benign = mid.endswith("-b1")
+    benign = "-b" in mid
     verdict = "caught" if rc == 1 and any(ln.startswith("VIOLATION") for ln in lines) else \
         ("MISSED" if rc == 0 else f"error rc={rc}")
     with_input = verdict == "caught" and "no-failing-input-found" not in " ".join(lines[:1])
